@@ -31,13 +31,17 @@ MANIFEST = {
             "partners each) all histories over {copy, deepcopy, pickle, subset(s) for EVERY non-empty increasing subset when "
             "n<=6 atoms (menu of <=15 beyond), join(self|partner|root, keep_resSeq T/F), to_dataframe->from_dataframe, "
             "save/load .h5, save/load .pdb} to depth 2 (thorough 3), states merged only on identical complete content; every "
+            ".h5 event is also read three times through ONE open handle (f.topology / read_as_traj / iterload chunks) with "
+            "one of the 8 edits applied between the reads, every .pdb event also with standard_names=False; ligands follow "
+            "amino acids and water in the same chain with atom names that are alternative spellings in the reader's tables; "
+            "every "
             "transition executed on the real object and compared with the model in every field the carrier can hold (for "
             ".pdb: bonds touching a non-standard residue and disulfides must survive through CONECT, template/peptide bonds of "
             "standard residues must be present before and after); index contiguity, bond-atom identity, source "
             "immutability, eq=>hash on all pairs of a state's family, equality preserved under the event for two equal "
             "twins, and independence under 8 edits on either side. Right level: the property quantifies over histories of "
             "a small object algebra.",
-    "note": "Bounded: <=6 atoms per fixture except one of 20 (<=80 after joins); standard residues limited to GLY, CYS, HOH "
+    "note": "Bounded: <=6 atoms per fixture except one of 22 (<=88 after joins); standard residues limited to GLY, CYS, HOH "
             "with canonical heavy-atom names (other standard residues / names a reader normalises: .pdb event not issued, "
             "counted); standard-standard bonds that no PDB record holds are not judged through .pdb; coordinates irrelevant "
             "(atoms 0.5 nm apart, no distance-detected disulfides); Trajectory.atom_slice/stack wrappers are not events; "
